@@ -898,6 +898,7 @@ def indicator(op, d: Rat) -> Rat:
 
 
 ABS_HOOK = None     # set by the current World: fn(Rat) -> '+','-','0',None
+ODD_FUNCS = {'sin', 'tan', 'sign'}     # f(-x) = -f(x) exactly; 'fsign' is added temporarily by C08.A3 after its guard check
 
 
 def opaque_fn(name, x: Rat) -> Rat:
@@ -909,6 +910,8 @@ def opaque_fn(name, x: Rat) -> Rat:
             return x
         if s == '-':
             return -x
+    if name in ODD_FUNCS and x.coef < 0:
+        return -opaque_fn(name, -x)
     if x.is_const():
         v = x.const_value()
         if name in ('sin',) and v == 0:
